@@ -10,7 +10,7 @@ SHARD = 200
 RULE = ('base program (incl. kill inside a step, kill from a listener) x placement of <= 2 requests from {pause, play, kill, resume} at every callback '
         'boundary; every accessor sampled after every event and callback; non-trivial = the process terminated after at least one accepted request, '
         'or was killed while paused / inside a step / from a listener; distinct = distinct (program, schedule)')
-ASSUMPTIONS = ['life-cycle hooks and listeners do not raise']
+ASSUMPTIONS = ['life-cycle hooks and listeners do not raise', 'step_until_terminated() is required to return only in schedules that complete every environment future the program awaits']
 
 TERMINAL_LISTENER = {'finished': 'on_process_finished', 'excepted': 'on_process_excepted', 'killed': 'on_process_killed'}
 
@@ -63,7 +63,11 @@ def oracle(case, obs):
         if r:
             return {'signature': r[0], 'kind': str(r[1]), 'at': s['tag'], 'context': context(case, obs)}
     f = obs['final']
-    if f['state'] in life.TERMINAL and f['ready'] == 0 and f['t0'] != 'done':
+    # a step suspended in the user's own await of an environment future that this schedule never completes cannot return: that is
+    # the environment's doing, not the library's (the demand is made whenever every awaited future is completed by the schedule)
+    awaited = {a[1] for s in case['prog'].values() for a in s['actions'] if a[0] == 'await'}
+    completed = {e[1] for e in obs.get('realized', case['events']) if e[0] == 'ext'}
+    if f['state'] in life.TERMINAL and f['ready'] == 0 and f['t0'] != 'done' and awaited <= completed:
         return {'signature': 'stepping_task_not_returned', 'kind': f['t0'], 'context': context(case, obs)}
     return None
 
